@@ -100,9 +100,14 @@ def c03(tier):
     # buses with taps and long thin paths: cells met in an order unrelated to how they are connected, so that the
     # greedy grouping needs several passes
     for i in range(nrandom // 6):
-        texts.append(gen.comb_grid(r) if i % 2 == 0 else (gen.walk_grid(r) if i % 4 == 1 else gen.hatch_grid(r)))
-    texts = gen.dedup(texts)
+        texts.append(gen.comb_grid(r) if i % 2 == 0 else (gen.walk_grid(r) if i % 4 == 1 else gen.hatch_grid(r, diag="+")))
+    # the statement's alphabet, and nothing else (a generator that strays outside it must not turn into an alarm)
+    allowed = set("-|+ \n" + gen.LABELS)
+    stray = [t for t in texts if not set(t) <= allowed]
+    run.notes["inputs_outside_the_alphabet_dropped"] = len(stray)
+    texts = gen.dedup([t for t in texts if set(t) <= allowed])
     observe_events(run, texts, ["C03"], "random-grid")
+    dressed_events(run, r, [(t, {"props": ["C03"]}, {"source": "random-grid, dressed"}) for t in texts], 6, "C03D")
     run.samples.append({"input": texts[0]})
     run.validate()
     from . import stages
@@ -211,6 +216,10 @@ def c06(tier):
         corpus.append("+" + "-" * w + "+\n| \"label %d\"" % i + " " * (w - 12) + " |\n+" + "-" * w + "+  \"q\" --")
     # a tab between two things on one line is one blank cell wherever the line starts
     corpus += ["+--+\t+--+\n|  |\t|  |\n+--+\t+--+", "---\t--->", "a\tb\t\tc", "|\t|\n+-\t-+", "\t/\n/\t"]
+    # the shared pool: legend-free texts of plain lines (a quoted string alone on the page is the known finding
+    # F-C12-quoted-canvas - the page does not see it, moved or not - so quoted texts stay with the hand-made rows above)
+    corpus += pool(r, tier, lambda t: gen.plain_lines(t) and not gen.has_legend(t) and '"' not in t and t.strip(), 500)
+    corpus = gen.dedup(corpus)
     groups = []
     for t in corpus:
         g = [({"input": t}, None)]
@@ -290,6 +299,9 @@ def c10(tier):
     for i in range(12):
         corpus += [gen.random_grid(r, r.randint(1, 4), 1, "ab", 1.0) + r.choice(gen.WIDE), r.choice(["()", "(_)", "(_)--", "()-"])]
     corpus = corpus + special + [x for pair in zip(special, reversed(special)) for x in pair]
+    # the shared pool: tame, legend-free, tag-free, quote-free texts, paired with each other
+    pl = pool(r, tier, lambda t: gen.tame(t) and not gen.has_legend(t) and '"' not in t and "{" not in t and "}" not in t and t.strip(), 400)
+    corpus += pl[:len(pl) // 2 * 2]
     groups = []
 
     def dcols(s_):
@@ -394,6 +406,7 @@ def c11(tier):
     big = ["\n".join(["|  |"] * r.randint(230, 420)), "+" + "-" * r.randint(450, 830) + "+", "\n".join("o-- x%d" % i for i in range(250))]
     groups = []
     tagged_set = set(tagged) | set(big)
+    corpus = gen.dedup(corpus + pool(r, tier, None, 500))
     for t in corpus + tagged + big:
         g = [({"input": t, "entry": "settings", "settings": {"scale": 8.0}}, None)]
         scales = SCALES if tier == "thorough" else (r.sample(SCALES, 2) if t not in tagged_set else [0.5, 1, 37.5] + r.sample(SCALES[2:5], 1))
@@ -443,10 +456,14 @@ def c17(tier):
                     ["EolInvariant"], init="MCInit", next_="MCNext")
     run.model("MC_Rel", cfg)
     corpus = [t for t in gen.mixed_corpus(r, n) if t.strip()]
+    npool = len(corpus)
+    corpus += pool(r, tier, lambda t: "\r" not in t, 500)        # the shared pool, as it is (legends, quotes, tags included)
     groups = []
     for i, t in enumerate(corpus):
         t = "\n".join(x.rstrip(" \t") for x in t.split("\n"))
-        if i % 3 == 0:
+        if i >= npool:
+            pass
+        elif i % 3 == 0:
             t = t + "\n" + r.choice(LEGENDS)
         elif i % 3 == 1:
             # a quoted string followed by nothing, by a word, or by exactly one character right after the closing quote
@@ -468,6 +485,65 @@ def c17(tier):
 
 
 PLANS.update({"C06": c06, "C10": c10, "C11": c11, "C17": c17})
+
+
+# ------------------------------------------------------------------------------------------
+DRESS_LEGENDS = ["# Legend:\na = {fill:red}\n", "# Legend:\nbig = {stroke:blue; fill:none}\nx1={fill:#aaa}",
+                 "# Legend:", "# Legend:\r\nq = {\r\n  fill: red;\r\n}\r\n", "# Legend:  \n\nzz = {x:y}\n"]
+
+
+def pool(r, tier, want=None, nq=600):
+    """inputs of the shared pool (gen.universe) that the asking property's quantifier admits; a seeded sample in the
+    quick tier, all of them in the thorough one"""
+    return gen.universe(r, nq if tier == "quick" else None, want)
+
+
+def blank_quoted(t):
+    """t with every quoted region, quotes included, replaced by as many spaces as display columns; None when a row
+    is outside C15's domain (unbalanced quotes or a backslash on a row with quotes, a brace anywhere)"""
+    out = []
+    if "{" in t or "}" in t:
+        return None           # a brace anywhere puts the text outside the domain (Reference!QuoteDomain)
+    for row in t.split("\n"):
+        if '"' not in row:
+            out.append(row)
+            continue
+        if row.count('"') % 2 or "\\" in row:
+            return None
+        parts = row.split('"')
+        b = ""
+        for j, part in enumerate(parts):
+            b += part if j % 2 == 0 else " " * (sum(2 if common_wide(c) else 1 for c in part) + 2)
+        out.append(b)
+    return "\n".join(out)
+
+
+def dress(r, t):
+    """the same drawing in another dress: CRLF line ends, trailing blanks / blank lines (invisible by C17), or a legend
+    below it (never drawn, by C16).  returns (text, kind); DocTrace checks the dress before it trusts it"""
+    kinds = ["eol", "eol", "legend"] if "# Legend:" not in t else ["eol"]
+    kind = r.choice(kinds)
+    if kind == "eol":
+        return eol_variant(r, t, crlf=r.random() < 0.6), "eol"
+    body = eol_variant(r, t, crlf=False) if r.random() < 0.3 else t
+    return body + "\n" + "\n" * r.choice([0, 0, 1, 2]) + r.choice(DRESS_LEGENDS), "legend"
+
+
+def dressed_events(run, r, cases, every, tag, post=None):
+    """cases: list of (text, event-fields, replay-info).  Every `every`-th case is converted once more in another dress
+    and the same oracle predicates are evaluated on the document of the dressed text (event fields orows / dec)"""
+    picked = [c for i, c in enumerate(cases) if i % every == 0 and c[0].strip()]
+    dd = [dress(r, t) for (t, _, _) in picked]
+    obs = observe.observe([{"input": d[0]} for d in dd], tag=tag)
+    for (t, fields, info), (dt, kind), o in zip(picked, dd, obs):
+        ev = dict(fields)
+        ev.update({"rows": o["rows"], "orows": gen.rows_of(t), "dec": kind, "doc": o["doc"]})
+        if post:
+            post(ev, o)
+        inf = dict(info)
+        inf.update({"input": dt, "dressed_from": t, "dec": kind})
+        run.add_event(ev, inf)
+    return len(picked)
 
 
 # ------------------------------------------------------------------------------------------
@@ -629,7 +705,7 @@ def c12(tier):
     extra += ["○", "●--", "⊕", "O", "(_)\n", "*-", "o"]
     # ... and the arcs of the catalogue tables (quarter, half, three-quarter circles) in the top rows / left columns
     extra += ["\n".join(gen.catalogue_art(r)) for _ in range(40 if tier == "quick" else 600)]
-    texts = gen.dedup(corpus + extra + ["", " ", "\n\n", "a"])
+    texts = gen.dedup(corpus + extra + ["", " ", "\n\n", "a"] + pool(r, tier, lambda t: gen.tame(t) and gen.header_at_line_start(t), 900))
     cases = []
     for i, t in enumerate(texts):
         if i % 5 == 3:
@@ -711,6 +787,7 @@ def c09(tier):
     for (t, info), o in zip(runs, obs):
         run.add_event({"props": ["C09", "C09run"], "rows": o["rows"], "doc": o["doc"], "run": info},
                       {"input": t, "run": info})
+    dressed_events(run, r, [(t, {"props": ["C09", "C09run"], "run": info}, {"run": info}) for (t, info) in runs], 4, "C09D")
     run.samples.append({"input": runs[5][0], "run": runs[5][1]})
     corpus = gen.mixed_corpus(r, n)
     # characters that stroke along an edge of their cell: a bottom-edge character above a top-edge one (and a
@@ -755,7 +832,7 @@ def c09(tier):
             big.append(gen.random_grid(r, w, r.randint(3, 8), "-|+", 0.8))
         else:
             big.append("\n".join(("| " * (w // 2)) for _ in range(r.randint(2, 6))) + "\n" + "-" * w)
-    observe_events(run, gen.dedup(corpus + big), ["C09"], "mixed-corpus")
+    observe_events(run, gen.dedup(corpus + big + pool(r, tier, None, 900)), ["C09"], "mixed-corpus")
     run.validate()
     run.assumptions = std_assumptions()
     return run.finish()
@@ -795,6 +872,7 @@ def c04(tier):
         words = ["".join(r.choice(gen.LABELS[:10]) for _ in range(r.randint(1, 3))) for _ in range(r.randint(1, 3))]
         texts.append(gen.catalogue_scene(r, words))
     observe_events(run, gen.dedup(texts), ["C04"], "random-labels")
+    dressed_events(run, r, [(t, {"props": ["C04"]}, {"source": "random-labels, dressed"}) for t in gen.dedup(texts)], 5, "C04D")
     # rows that also contain quoted strings (content without quote, backslash, braces)
     qtexts = []
     qalpha = gen.LABELS[:8] + gen.WIDE + gen.LATIN + gen.CYRIL + " -|+"
@@ -808,6 +886,7 @@ def c04(tier):
             rows.append(" ".join(parts))
         qtexts.append("\n".join(rows))
     observe_events(run, gen.dedup(qtexts), ["C04q"], "labels-with-quoted")
+    dressed_events(run, r, [(t, {"props": ["C04q"]}, {"source": "labels-with-quoted, dressed"}) for t in gen.dedup(qtexts)], 5, "C04E")
     run.samples.append({"input": texts[0]})
     run.validate()
     run.assumptions = std_assumptions() + ["display width from Chars!WideCp; the drivers draw wide characters only from blocks on which all Unicode versions agree"]
@@ -875,6 +954,11 @@ def c15(tier):
         if "{" in ta or "}" in ta:
             ta, tb = ta.replace("{", "(").replace("}", ")"), tb.replace("{", "(").replace("}", ")")
         groups.append([({"input": ta}, None), ({"input": tb}, {"kind": "blank", "of": 1})])
+    # the shared pool: whatever contains a quoted string and lies in the statement's domain
+    for t in pool(r, tier, lambda t: '"' in t and gen.tame(t) and not gen.has_legend(t), 300):
+        tb = blank_quoted(t)
+        if tb is not None:
+            groups.append([({"input": t}, None), ({"input": tb}, {"kind": "blank", "of": 1})])
     rel_events(run, groups, "C15")
     run.samples.append({"a": groups[1][0][0]["input"], "b": groups[1][1][0]["input"]})
     run.validate(shard=1500)
@@ -981,6 +1065,8 @@ def c08(tier):
                        "expect_text": [[ord(c) for c in x] for x in exp_t] if chan == "quoted" else [],
                        "expect_style": [[ord(c) for c in x] for x in exp_s] if styles_on else []},
                       {"input": t, "channel": chan, "entry": rq.get("entry", "to_svg"), "settings": rq.get("settings")})
+    # svgbob's own vocabulary and nothing else, on the shared pool (no marker to look for there)
+    observe_events(run, pool(r, tier, None, 900), ["C08voc"], "pool")
     run.samples += [{"input": cases[2][0], "channel": cases[2][1]}, {"input": cases[4][0], "channel": cases[4][1]}]
     run.validate(shard=800)
     run.assumptions = std_assumptions() + ["expat is the conforming XML parser that decides well-formedness"]
@@ -1053,6 +1139,11 @@ def c02(tier):
     for (t, chan, et, es), rq, o in zip(cases, reqs, obs):
         run.add_event({"props": ["C02"], "rows": o["rows"], "doc": o["doc"], "expect_text": et, "expect_style": es},
                       {"input": t, "channel": chan, "entry": rq.get("entry", "to_svg"), "settings": rq.get("settings")})
+    # the first sentence of the statement (one well-formed svg document) on the shared pool, in the three renderings
+    ptexts = pool(r, tier, None, 900)
+    pobs = observe.observe([{"input": t, "entry": ["to_svg", "compressed", "pretty"][i % 3]} for i, t in enumerate(ptexts)], tag="C02P")
+    for i, (t, o) in enumerate(zip(ptexts, pobs)):
+        run.add_event({"props": ["C02wf"], "rows": o["rows"], "doc": o["doc"]}, {"input": t, "entry": ["to_svg", "compressed", "pretty"][i % 3], "source": "pool"})
     run.samples += [{"input": cases[0][0][:80], "channel": "plain"}, {"input": cases[1][0][:80], "channel": "quoted"}]
     run.notes["scalars_swept"] = len(scalars)
     run.validate(shard=600)
@@ -1201,6 +1292,7 @@ def c05(tier):
     obs = observe.observe([{"input": t} for t, _ in boxes], tag="C05A")
     for (t, b), o in zip(boxes, obs):
         run.add_event({"props": ["C05box", "C05s"], "rows": o["rows"], "doc": o["doc"], "box": b}, {"input": t, "box": b})
+    dressed_events(run, r, [(t, {"props": ["C05box", "C05s"], "box": b}, {"box": b}) for (t, b) in boxes], 4, "C05D")
     run.samples.append({"input": boxes[len(boxes) // 2][0], "box": boxes[len(boxes) // 2][1]})
     run.validate(shard=1200)
     # soundness families
@@ -1232,7 +1324,7 @@ def c05(tier):
                 top[tl], top[W - 1 - tr], bot[bl], bot[W - 1 - br] = ".", ".", "'", "'"
                 rows = ["".join(top)] + ["|" + " " * w + "|"] * h + ["".join(bot)]
                 mixed.append("\n".join((" " * k + x).rstrip() for x in rows))
-    observe_events(run, gen.dedup(muts + rnd + corpus + mixed), ["C05s"], "soundness")
+    observe_events(run, gen.dedup(muts + rnd + corpus + mixed + pool(r, tier, gen.tame, 900)), ["C05s"], "soundness")
     run.samples.append({"input": muts[0]})
     run.validate()
     from . import stages
@@ -1367,6 +1459,7 @@ def c13(tier):
     obs = observe.observe([{"input": t} for t, _ in cases], tag="C13B")
     for (t, circ), o in zip(cases, obs):
         run.add_event({"props": ["C13"], "rows": o["rows"], "doc": o["doc"], "circ": circ}, {"input": t, "circ": circ})
+    dressed_events(run, r, [(t, {"props": ["C13"], "circ": circ}, {"circ": circ}) for (t, circ) in cases], 4, "C13D")
     run.samples.append({"input": cases[7][0], "circ": cases[7][1]})
     run.validate(shard=1500)
     run.assumptions = std_assumptions() + ["'about one cell' is read as 20 lattice units (1 1/4 cell heights)",
@@ -1505,6 +1598,7 @@ def c14(tier):
     obs = observe.observe([{"input": c[0]} for c in cases], tag="C14A")
     for (t, pred, key, info), o in zip(cases, obs):
         run.add_event({"props": [pred], "rows": o["rows"], "doc": o["doc"], key: info}, {"input": t, key: info})
+    dressed_events(run, r, [(t, {"props": [pred], key: info}, {key: info}) for (t, pred, key, info) in cases], 4, "C14D")
     run.samples += [{"input": cases[3][0], "arrow": cases[3][3]}, {"input": cases[-1][0], "outline": cases[-1][3]}]
     run.validate(shard=1500)
     run.assumptions = std_assumptions()
@@ -1700,8 +1794,19 @@ def c16(tier):
         if pred == "C16tags":
             ev["clsmap"] = clsmap_of(o["doc"])
         run.add_event(ev, {"input": t, key: info})
+    dressed_events(run, r, [(t, {"props": [pred], key: info}, {key: info}) for (t, pred, key, info) in cases if pred == "C16tags"], 3, "C16D",
+                   post=lambda ev, o: ev.update({"clsmap": clsmap_of(o["doc"])}))
     run.samples += [{"input": cases[1][0]}, {"input": cases[n + 1][0], "tags": cases[n + 1][3]}]
     run.validate(shard=800)
+    # "from a '# Legend:' line to the end the input is never drawn": any legend-free text and the same text with a legend
+    # below it give the same elements on the same page (shared pool and this property's own drawings)
+    groups = []
+    for t in pool(r, tier, lambda t: gen.plain_lines(t) and not gen.has_legend(t), 500) + [c[0] for c in cases if c[1] == "C16tags"][::3]:
+        ents = "".join("%s = {%s}\n" % (rand_ident(r), rand_decl(r).replace("# Legend:", "")) for _ in range(r.randint(0, 3)))
+        d = t + "\n" + "\n" * r.choice([0, 0, 1, 2]) + r.choice(["# Legend:\n", "# Legend:  \n", "# Legend:\r\n"]) + ents
+        groups.append([({"input": t}, None), ({"input": d if ents else d.rstrip("\r\n")}, {"kind": "legend", "of": 1})])
+    rel_events(run, groups, "C16app")
+    run.validate(shard=1200)
     # the model forwards on the legend and tag families themselves
     full_conformance(run, [c[0] for c in cases], "C16G", 250 if tier == "quick" else 6000)
     run.assumptions = std_assumptions() + ["'lying inside' is read as: the tag's cells lie inside the shape's bounding box"]
@@ -1733,6 +1838,7 @@ def c18(tier):
     # inputs that begin with an invisible character (a byte order mark is an ordinary cell character), a blank line or a blank
     for i in range(0, len(corpus), 12):
         corpus.append(r.choice(["\ufeff", "\u200b", "\n", " ", "\t"]) + corpus[i])
+    corpus = gen.dedup(corpus + pool(r, tier, None, 150))
     for t in corpus:
         g = [({"input": t, "want_style": True}, None)]
         j = 1
@@ -1890,6 +1996,8 @@ def c01(tier):
     # structures whose grouping needs one merge pass per element (a bound on the number of passes turns into a panic
     # or a wrong result): wide combs and hatched triangles
     texts += big + ["| " * k_ + "\n" + "+-" * k_ for k_ in (70, 150, 300)] + [gen.hatch_grid(r) for _ in range(6)] + [gen.comb_grid(r) for _ in range(12)]
+    # the shared pool: what the generators of all the other properties produce
+    texts += pool(r, tier, None, 700)
     cases = []
     # finite positive scales from the smallest to just below the largest f32 (at the top lengths overflow to inf)
     scales = [1e-30, 0.5, 8.0, 37.5, 1e30, 1e38, 3e38, 3.4e38, 1.2e-38]
@@ -1945,6 +2053,7 @@ def c07(tier):
                 % (("t1, t2" if tier == "quick" else "t1, t2, t3"), 2 if tier == "quick" else 1))
     run.model("ServiceInd", path, timeout=3000)
     corpus = [t for t in gen.mixed_corpus(r, ninputs)] + [b for _, b in gen.bundled_files()][:6]
+    corpus += pool(r, tier, None, 200)          # the shared pool: the families of every other property
     corpus += [gen.box(6, 1, "round", "{a}") + "\n# Legend:\na = {fill:red}", '"quoted" text 一二',
                gen.box(20, 1, "sharp", "{red,big,bold,hot}"), gen.box(12, 2, "uni", "{x1,y2,z3}") + "  ( a )--  ( b )--",
                "  ( a )--\n\n        ( a )--", gen.box(16, 1, "round", "{k1,k2,k3,k4}") + "\n# Legend:\nk1={a}\nk2={b}"]
